@@ -29,11 +29,12 @@ Theorem c11_theta_roundtrip_compressed :
 Proof. exact roundtrip_compressed. Qed.
 
 (* reachable_wf: whatever compact(ordered) returns for a sketch reached by any history of
-   update/trim/reset is well-formed (theta0 <= 2^63-1: every sampling probability in (0, 1]; that the
-   starting theta is at least 1 is part of the repaired model, /repo fix 1188107) *)
+   update/trim/reset is well-formed, for every configuration and EVERY sampling probability: the starting
+   theta `(2^63 as f64 * p) as u64` is at most 2^63-1 for every f64 p < 1 (Flocq), and at least 1 in the
+   repaired code (/repo fix 1188107) *)
 Theorem c11_theta_reachable_wf :
   forall reorder, reorder_ok reorder -> forall c ops s ordered, cfg_ok c -> reach reorder c ops s ->
-  theta0 c <= MAX_THETA -> c_seed_hash c < 65536 ->
+  c_seed_hash c < 65536 ->
   c_wf (c_seed_hash c) (sk_compact s ordered).
 Proof. exact compact_wf. Qed.
 
